@@ -13,6 +13,8 @@ G_CJ = [2042, 2044, 2046, 2048]
 G_B = [4090, 4092, 4094, 4096]
 G_J = [1048568, 1048572, 1048576, 1048580]
 G_BEYOND = [2097156]
+# far call/tail distances whose low 12 bits sit around 0x800 (where %hi rounds up): 0x1007fc .. 0x100804 from a call at 0
+G_HILO = [1050612, 1050614, 1050616, 1050620]
 
 CLAUSES = {
     'C03': {'nc': {'LabelsExact', 'TargetExact', 'AbsoluteTargetExact'}, 'c': {'LabelsExact', 'TargetExact', 'AbsoluteTargetExact'}, 'rel': set()},
@@ -28,21 +30,24 @@ CLAUSES = {
 
 # (class, max length, gap sets) per property and tier
 PLANS = {
-    'C03': {'quick': [('control', 3, [G_NEAR]), ('far', 4, [G_CJ, G_J]), ('far', 3, [G_CB, G_B, G_BEYOND]), ('abs', 4, [[]])],
-            'thorough': [('control', 4, [G_NEAR, G_CB]), ('far', 4, [G_CB, G_CJ, G_B, G_J, G_BEYOND]), ('far', 5, [G_CJ]), ('abs', 5, [[]]), ('oddalign', 4, [[]])]},
+    'C03': {'quick': [('control', 3, [G_NEAR]), ('far', 4, [G_CJ, G_J]), ('far', 3, [G_CB, G_B, G_BEYOND, G_HILO]), ('abs', 4, [[]])],
+            'thorough': [('control', 4, [G_NEAR, G_CB]), ('far', 4, [G_CB, G_CJ, G_B, G_J, G_BEYOND, G_HILO]), ('far', 5, [G_CJ]), ('abs', 5, [[]]), ('oddalign', 4, [[]])]},
     'C04': {'quick': [('control', 4, [G_NEAR]), ('literals', 2, [[]]), ('far', 3, [G_CB, G_CJ, G_J]), ('abs', 3, [[]])],
             'thorough': [('control', 4, [G_NEAR, G_CB, G_CJ]), ('literals', 3, [[]]), ('far', 4, [G_CB, G_CJ, G_B, G_J])]},
     'C08': {'quick': [('values', 3, [G_NEAR, G_CJ]), ('values', 2, [G_J]), ('values', 4, [[]]), ('datamix', 3, [[3]])],
             'thorough': [('values', 4, [G_NEAR]), ('values', 3, [G_CB, G_CJ, G_B, G_J])]},
     'C09': {'quick': [('aligns', 4, [[]]), ('aligns', 3, [G_NEAR]), ('datamix', 3, [[3]])],
             'thorough': [('aligns', 5, [[]]), ('aligns', 4, [G_NEAR, G_CJ]), ('datamix', 4, [[3]])]},
-    'C12': {'quick': [('control', 3, [G_NEAR, G_CJ]), ('values', 3, [G_NEAR, G_CJ]), ('far', 3, [G_J]), ('literals', 2, [[]]), ('abs', 4, [[]]), ('oddalign', 4, [[]])],
-            'thorough': [('control', 4, [G_NEAR, G_CB]), ('values', 4, [G_NEAR]), ('values', 3, [G_CJ, G_B, G_J]), ('far', 4, [G_CB, G_CJ, G_B, G_J]), ('literals', 3, [[]]),
+    'C12': {'quick': [('control', 3, [G_NEAR, G_CJ]), ('values', 3, [G_NEAR, G_CJ]), ('far', 3, [G_J]), ('far', 4, [G_HILO]), ('literals', 2, [[]]), ('abs', 4, [[]]), ('oddalign', 4, [[]])],
+            'thorough': [('control', 4, [G_NEAR, G_CB]), ('values', 4, [G_NEAR]), ('values', 3, [G_CJ, G_B, G_J]), ('far', 4, [G_CB, G_CJ, G_B, G_J, G_HILO]), ('literals', 3, [[]]),
                          ('abs', 5, [[]]), ('oddalign', 5, [[]])]},
     'C20': {'quick': [('literals', 2, [[]]), ('control', 3, [G_NEAR, G_CJ]), ('aligns', 3, [[]])],
             'thorough': [('literals', 3, [[]]), ('control', 4, [G_NEAR, G_CJ]), ('aligns', 4, [[]]), ('far', 4, [G_CB, G_J])]},
 }
 RANDOM = {'quick': (600, 6, 30), 'thorough': (12000, 6, 40)}
+
+
+INSTR_LIKE = {'ins', 'pins', 'br', 'jal', 'pbr', 'pj', 'li', 'lil', 'imml', 'brk', 'jalk', 'pjk'}
 
 
 def msg_class(msg):
@@ -68,6 +73,19 @@ def signature(prop, mode, clause, idx, rec):
         odd_layout = any((it['k'] == 'align' and it['n'] % 2 == 1 and it['n'] > 1) or (it['k'] in ('data', 'gap') and it['n'] % 2 == 1) for it in prog)
         if odd_layout and eit and eit['k'] in ('br', 'jal', 'pbr', 'pj') and 'multiple of N' in sig['error'].replace('muliple', 'multiple'):
             sig['cause'] = 'odd-layout-parity'
+        # a li of a label expression that took its one-instruction form on a value which the later shrinking of other items
+        # pushed out of the 12-bit range: only when the value in the UNCOMPRESSED layout sits within reach of the range's edge
+        if eit and eit['k'] == 'lil' and rec['nc']['status'] == 'ok' and 'bit immediate must be between' in (c.get('msg') or ''):
+            sizes, labels = rec['nc']['sizes'], rec['nc']['labels']
+            if sizes[el - 1] == 4:
+                pos = sum(sizes[:el - 1])
+                f, n = eit['f'], eit['n']
+                v = {'bare': lambda: labels[eit['t']], 'pos': lambda: n + labels[eit['t']], 'off': lambda: labels[eit['t']] - pos,
+                     'offk': lambda: n - pos}.get(f, lambda: None)()
+                # every item can move a label by at most 6 bytes between the two layouts (li 8 -> 2); aligns by less than their size
+                reach = sum(6 if it['k'] in INSTR_LIKE else (it['n'] if it['k'] == 'align' else 0) for it in prog)
+                if v is not None and -2048 <= v <= 2047 and (v - reach < -2048 or v + reach > 2047):
+                    sig['cause'] = 'li-decided-early'
     return sig
 
 
@@ -153,16 +171,21 @@ def model_level(run, scratch, prop):
              'C09': [('aligns', n, [], {}), ('datamix', 3, [3], {})],
              'C12': [('abs', n, [], {}), ('oddalign', 3, [], {})],
              'C20': [('control', 3, G_CB, {})]}
-    DEVS = {'C03': [('far', 3, G_CJ, {'Dev_NearCallLo': True}, 'M_TargetExact'), ('far', 3, G_J, {'Dev_CompressPairJalr': True}, 'M_TargetExact')]}
+    DEVS = {'C03': [('far', 3, G_CJ, {'Dev_NearCallLo': True}, 'M_TargetExact'), ('far', 3, G_J, {'Dev_CompressPairJalr': True}, 'M_TargetExact')],
+            'C08': [('values', 3, G_CJ, {'Dev_PairLoFromSecond': True}, 'M_ValuesExact'),
+                    # the open finding KF-C12-li-decided-early, at design level: the li form is chosen before the last shrink
+                    ('values', 3, [], {}, 'M_CompressSafe')],
+            'C12': [('far', 4, G_HILO[2:3], {'Dev_PairLoFromSecond': True}, 'M_CompressSafe'), ('abs', 3, [], {'Dev_CompressLiOffK': True}, 'M_CompressSafe')]}
+    NODEV = {'Dev_NearCallLo': False, 'Dev_CompressPairJalr': False, 'Dev_PairLoFromSecond': False, 'Dev_CompressLiOffK': False}
     plans = PLANS.get(prop, [])
     devs = DEVS.get(prop, [])
-    invs = ['M_LabelsExact', 'M_TargetExact', 'M_AgreesWithRun', 'M_CompressSafe']
     for cls, maxlen, gaps, dev in plans:
-        if cls == 'oddalign':
-            invs = ['M_LabelsExact', 'M_TargetExact', 'M_AgreesWithRun']      # M_CompressSafe fails here by design: KF-C12-odd-align-parity
+        invs = ['M_LabelsExact', 'M_TargetExact', 'M_ValuesExact', 'M_AgreesWithRun', 'M_CompressSafe']
+        if cls in ('oddalign', 'values'):
+            # M_CompressSafe fails on these classes by design: KF-C12-odd-align-parity / KF-C12-li-decided-early
+            invs.remove('M_CompressSafe')
         cfg = os.path.join(scratch, 'mc_%s_%d_%d.cfg' % (cls, maxlen, len(gaps)))
-        tlc.write_cfg(cfg, spec='MSpec', constants=dict({'Class': cls, 'MaxLen': maxlen, 'Gaps': set(gaps), 'MaxGapItems': 1,
-                                                         'Dev_NearCallLo': False, 'Dev_CompressPairJalr': False}, **dev),
+        tlc.write_cfg(cfg, spec='MSpec', constants=dict({'Class': cls, 'MaxLen': maxlen, 'Gaps': set(gaps), 'MaxGapItems': 1}, **dict(NODEV, **dev)),
                       invariants=invs, properties=['M_LabelsMonotone'])
         r = tlc.run('AsmPassesMC', cfg, workers=16, heap='6g', timeout=7200)
         if r.invariant_violated or r.property_violated or not r.completed:
@@ -170,13 +193,13 @@ def model_level(run, scratch, prop):
         run.add_tlc('AsmPassesMC %s N=%d gaps=%s' % (cls, maxlen, gaps), r)
     caught = {}
     for cls, maxlen, gaps, dev, inv in devs:
-        cfg = os.path.join(scratch, 'mcdev_%s.cfg' % list(dev)[0])
-        tlc.write_cfg(cfg, spec='MSpec', constants=dict({'Class': cls, 'MaxLen': maxlen, 'Gaps': set(gaps), 'MaxGapItems': 1,
-                                                         'Dev_NearCallLo': False, 'Dev_CompressPairJalr': False}, **dev), invariants=[inv])
+        name = list(dev)[0] if dev else 'none(%s)' % cls
+        cfg = os.path.join(scratch, 'mcdev_%s.cfg' % name)
+        tlc.write_cfg(cfg, spec='MSpec', constants=dict({'Class': cls, 'MaxLen': maxlen, 'Gaps': set(gaps), 'MaxGapItems': 1}, **dict(NODEV, **dev)), invariants=[inv])
         r = tlc.run('AsmPassesMC', cfg, workers=8, heap='4g', timeout=3600)
         if inv not in r.invariant_violated:
             raise tlc.TlcFailure('non-vacuity: deviation %s is not caught by %s on the model' % (dev, inv))
-        caught[list(dev)[0]] = inv
+        caught[name] = inv
     run.coverage['model_deviations_caught'] = caught
 
 
@@ -229,6 +252,9 @@ def c08(run, scratch):
 
 def c09(run, scratch):
     model_level(run, scratch, 'C09')
+    # symbolic: the padding formula of the Aligns pass, for every position and alignment (Apalache, SMT)
+    apa = tlc.apalache('AlignApa', scratch)
+    run.coverage['apalache_align_all_positions_all_alignments'] = {'Inv (0 = holds)': apa['Inv'], 'InvMutant (12 = refuted)': apa['InvMutant']}
     run_plan(run, scratch, 'C09')
 
 
